@@ -176,6 +176,11 @@ func (r *Replayer) Run(entry string, nondet []NondetRec, replayPath string) Nati
 			res.Failed = true
 			res.Detail = strings.TrimPrefix(line, "VERIF-REPLAY-FAILED: ")
 			done = true
+			if strings.Contains(res.Detail, "verifrt: replay") {
+				// the native run asked for other nondeterministic values than the path recorded: not a confirmation
+				res.Failed = false
+				res.Err = fmt.Errorf("replay divergence: %s", res.Detail)
+			}
 		case strings.HasPrefix(line, "VERIF-REPLAY-OK"):
 			done = true
 		}
